@@ -103,7 +103,9 @@ def main():
         n_gen_quick=500, n_gen_thorough=9000, cfgs=cfgs,
         kinds=('numbers', 'core', 'scope', 'classes', 'exc', 'natives', 'alias', 'chan', 'numbers', 'strings'),
         stat_keys=('allocs', 'steps'), requires=[('steps', 100000, 2000000)], timeout=90, post=post,
-        extra_sources=native_probe_sources())
+        extra_sources=native_probe_sources(),
+        # a crash of one representation where the other raises an error IS this property's business
+        skip_baseline_crash=False)
 
 
 if __name__ == '__main__':
